@@ -138,6 +138,59 @@ def replay_exit_codes(a, structured=False, fmt="json"):
         shutil.rmtree(d, ignore_errors=True)
 
 
+def replay_junit_suites(a):
+    """validate --structured -o junit over several data files: the <testsuite> of a data file (its name, tests / failures / errors counts and
+    the status of its test cases) is the one that file gets when validated alone, wherever it stands in the run; the <testsuites> totals are
+    the sums"""
+    import os, re as _re, shutil, subprocess, tempfile
+    exe = a.cli()
+    if not exe:
+        return {"reproduced": False, "note": "native build failed"}
+    d = tempfile.mkdtemp(prefix="cfnverif_replay_")
+    out = []
+    try:
+        open(os.path.join(d, "r1.guard"), "w").write("rule one { a == 1 }\nrule sk when a == 9 { a == 1 }\n")
+        open(os.path.join(d, "r2.guard"), "w").write("rule two { b == 1 }\n")
+        docs = {"good.json": '{"a": 1, "b": 1}\n', "bad.json": '{"a": 2, "b": 1}\n', "worse.json": '{"a": 2, "b": 2}\n'}
+        for k, t in docs.items():
+            open(os.path.join(d, k), "w").write(t)
+
+        def run(names):
+            cmd = [exe, "validate", "-r", os.path.join(d, "r1.guard"), "-r", os.path.join(d, "r2.guard"), "--structured", "-o", "junit", "--show-summary", "none"]
+            for n in names:
+                cmd += ["-d", os.path.join(d, n)]
+            pr = subprocess.run(cmd, capture_output=True, text=True, timeout=60)
+            suites = {}
+            for m in _re.finditer(r"<testsuite\b([^>]*)>(.*?)</testsuite>", pr.stdout, _re.S):
+                at = dict(_re.findall(r'(\w+)="([^"]*)"', m.group(1)))
+                cases = sorted((dict(_re.findall(r'(\w+)="([^"]*)"', c.group(1))).get("name"), "failure" if "<failure" in c.group(2) or "<failure" in c.group(0) else
+                                ("error" if "<error" in c.group(0) else "ok"))
+                               for c in _re.finditer(r"<testcase\b([^>]*?)(/>|>.*?</testcase>)", m.group(2), _re.S))
+                suites[os.path.basename(at.get("name", ""))] = (at.get("tests"), at.get("failures"), at.get("errors"), tuple(cases))
+            tot = _re.search(r"<testsuites\b([^>]*)>", pr.stdout)
+            totals = dict(_re.findall(r'(\w+)="([^"]*)"', tot.group(1))) if tot else {}
+            return pr.returncode, suites, totals
+        alone = {}
+        for k in docs:
+            rc, suites, totals = run([k])
+            if k not in suites:
+                return {"reproduced": False, "note": "singleton run gave no testsuite", "exit": rc}
+            alone[k] = suites[k]
+        for order in (["good.json", "bad.json"], ["bad.json", "good.json"], ["worse.json", "good.json", "bad.json"], ["bad.json", "worse.json", "good.json"]):
+            rc, suites, totals = run(order)
+            for k in order:
+                if suites.get(k) != alone[k]:
+                    out.append({"order": order, "data_file": k, "testsuite_alone (tests, failures, errors, cases)": str(alone[k]), "in_this_run": str(suites.get(k))})
+            want_f = sum(int(alone[k][1] or 0) for k in order)
+            if totals.get("failures") is not None and int(totals["failures"]) != want_f:
+                out.append({"order": order, "problem": f"<testsuites failures={totals.get('failures')}>, the files alone sum to {want_f}"})
+            if rc != 19:
+                out.append({"order": order, "problem": f"exit {rc}, a data file FAILs"})
+        return {"reproduced": bool(out), "mismatches": out[:4]}
+    finally:
+        shutil.rmtree(d, ignore_errors=True)
+
+
 def junit_report(a):
     """JUnit path: the per-pair closure (counters) and the report function (counters -> exit code)"""
     OK, ERR, FAILC = consts(a)
@@ -226,6 +279,10 @@ def junit_report(a):
     for c in (c1, c2):
         if c:
             c["replay"] = replay_exit_codes(a, structured=True, fmt="junit")
+            if not c["replay"].get("reproduced"):
+                r2 = replay_junit_suites(a)
+                if r2.get("reproduced"):
+                    c["replay"] = r2
             c["reproduced"] = c["replay"].get("reproduced", False)
             a.candidates.append(c)
 
@@ -3561,6 +3618,291 @@ def replay_clause_reports(a):
     return {"reproduced": bool(out), "mismatches": out[:4], "document": data}
 
 
+def supported_extension_predicate(a):
+    """C17 / C12: which files are picked up as data / parameter files. has_a_supported_extension(name, extensions) is exactly
+    `some extension is a suffix of the name` - the std `any` over the extension list with the predicate name.ends_with(extension) -
+    and consults nothing else (callers hand it absolute paths for --data and base names for --input-parameters: any further condition
+    on the name treats the two differently)"""
+    ex = a.exec(r"(?:commands::validate::)?has_a_supported_extension", {"any": lambda ex, av: ex.havoc("bool")},
+                log=("any", "starts_with", "ends_with", "contains", "find", "len", "is_empty", "eq", "ne"), unroll=1, max_paths=200, deepen=False)
+    a.fns.append("commands::validate::has_a_supported_extension")
+    bad = []
+    for p in ex.paths:
+        cs = [e for e in p.events if e[0] == "call" and e[1] not in ("iter", "into_iter")]
+        ok = (p.outcome == "return" and len(cs) == 1 and cs[0][1] == "any" and "slice::Iter" in str(cs[0][5])
+              and ex.iter_src.get(cs[0][2][0][1], cs[0][2][0]) == ex.arg_env["_2"] and p.ret == cs[0][3]
+              and cs[0][2][1][0] == "struct" and list(cs[0][2][1][2].values()) == [ex.arg_env["_1"]])
+        bad.append(f"(and {pc_term(p.pc)} (not {'true' if ok else 'false'}))")
+    c1 = a.discharge("has_a_supported_extension/any-suffix", ex, bad,
+                     "has_a_supported_extension: the answer is std's `any` over the extension list given, with a predicate that captures the name given, "
+                     "returned unchanged; no other test of the name takes part")
+    ex2 = a.exec(r"(?:commands::validate::)?has_a_supported_extension::\{closure#0\}", {"ends_with": lambda ex, av: ex.havoc("bool")},
+                 log=("ends_with", "starts_with", "contains"), unroll=1, max_paths=50, deepen=False)
+    bad2 = []
+    for p in ex2.paths:
+        cs = [e for e in p.events if e[0] == "call"]
+        name = ex2.proj.get((ex2.arg_env["_1"][1], ".0"))
+        ok = (p.outcome == "return" and len(cs) == 1 and cs[0][1] == "ends_with" and name is not None and cs[0][2][0] == name
+              and cs[0][2][1] == ex2.arg_env["_2"] and p.ret == cs[0][3])
+        bad2.append(f"(and {pc_term(p.pc)} (not {'true' if ok else 'false'}))")
+    c2 = a.discharge("has_a_supported_extension/predicate", ex2, bad2, "the predicate is name.ends_with(extension) for the name captured and the "
+                     "extension visited, returned unchanged", witness=False)
+    for c in (c1, c2):
+        if c:
+            c["replay"] = replay_parameter_file_names(a)
+            c["reproduced"] = c["replay"].get("reproduced", False)
+            a.candidates.append(c)
+
+
+def replay_parameter_file_names(a):
+    """-i with parameter files of unusual base names (leading dot, upper case, several dots, no stem) and every supported extension: the
+    verdict equals that of the pre-merged document; a key clash is an error whatever the file is called; as a --data file the same names work"""
+    import os, shutil, subprocess, tempfile
+    exe = a.cli()
+    if not exe:
+        return {"reproduced": False, "note": "native build failed"}
+    d = tempfile.mkdtemp(prefix="cfnverif_replay_")
+    out, tried = [], 0
+    try:
+        open(os.path.join(d, "r.guard"), "w").write("rule r {\n  P.env == \"prod\"\n  D == 1\n}\n")
+        open(os.path.join(d, "data.json"), "w").write('{"D": 1}\n')
+        open(os.path.join(d, "merged.json"), "w").write('{"D": 1, "P": {"env": "prod"}}\n')
+        ref = subprocess.run([exe, "validate", "-r", os.path.join(d, "r.guard"), "-d", os.path.join(d, "merged.json"), "--show-summary", "none"],
+                             capture_output=True, text=True, timeout=60).returncode
+        for stem in ("params", ".params", ".env", "a.b.c", "UPPER", "_p", "-p"):
+            for ext, body, clash in ((".json", '{"P": {"env": "prod"}}\n', '{"D": 2}\n'), (".yaml", "P:\n  env: prod\n", "D: 2\n"),
+                                     (".yml", "P:\n  env: prod\n", "D: 2\n"), (".jsn", '{"P": {"env": "prod"}}\n', '{"D": 2}\n')):
+                sub = os.path.join(d, "i")
+                shutil.rmtree(sub, ignore_errors=True)
+                os.makedirs(sub)
+                f = os.path.join(sub, stem + ext)
+                for structured in (False, True):
+                    extra = ["--structured", "-o", "json"] if structured else []
+                    open(f, "w").write(body)
+                    for how, iarg in (("file", f), ("directory", sub)):
+                        pr = subprocess.run([exe, "validate", "-r", os.path.join(d, "r.guard"), "-d", os.path.join(d, "data.json"), "-i", iarg,
+                                             "--show-summary", "none"] + extra, capture_output=True, text=True, timeout=60)
+                        tried += 1
+                        if pr.returncode != ref:
+                            out.append({"parameter_file": stem + ext, "given_as": how, "structured": structured, "exit": pr.returncode,
+                                        "exit_of_the_merged_document": ref})
+                    open(f, "w").write(clash)
+                    pr = subprocess.run([exe, "validate", "-r", os.path.join(d, "r.guard"), "-d", os.path.join(d, "data.json"), "-i", f,
+                                         "--show-summary", "none"] + extra, capture_output=True, text=True, timeout=60)
+                    tried += 1
+                    if pr.returncode in (0, 19):
+                        out.append({"parameter_file": stem + ext, "content": "defines a key the data defines too", "structured": structured,
+                                    "exit": pr.returncode, "expected": "an error exit"})
+        return {"reproduced": bool(out), "mismatches": out[:5], "runs": tried}
+    finally:
+        shutil.rmtree(d, ignore_errors=True)
+
+
+def test_junit_counts(a):
+    """C16 (`the json/yaml/junit renderings agree`): the JUnit rendering of a `test` run counts FAILED RULES - per test case the suite's
+    failure counter grows by number_of_failures() = the length of that case's failed_rules (what json / yaml list), not by one per case -
+    and the test cases appended are that case's own"""
+    IMPL = r"(?:reporters::test::)?structured::<impl at guard/src/commands/reporters/test/structured\.rs:\d+:\d+: \d+:\d+>::"
+    TC = struct_fields(a.src, "commands/reporters/test/structured.rs", "TestCase")
+    nf = {}
+
+    def m_nf(ex, av):
+        k = str(av[0])
+        if k not in nf:
+            nf[k] = ex.fresh_int("usize", "nfail")
+        return nf[k]
+    ex = a.exec(IMPL + r"build_test_suite::\{closure#0\}", {"build_junit_test_cases": lambda ex, av: ex.opq(), "number_of_failures": m_nf,
+                                                            "has_failures": lambda ex, av: ex.havoc("bool")},
+                log=("append", "extend", "push", "number_of_failures", "has_failures"), unroll=1, max_paths=400, deepen=False)
+    a.fns.append("commands::reporters::test::structured::TestResult::build_test_suite::{closure#0}")
+    envv, acc, tc = ex.arg_env["_1"], ex.arg_env["_2"], ex.arg_env["_3"]
+    bad, n = [], 0
+    # captured: &mut failures, &mut time (order as in the closure type); find them as the two int-valued derefs stored on the path
+    for p in ex.paths:
+        if p.outcome == "panic":
+            continue                      # counter overflow at usize::MAX / u128::MAX
+        if p.outcome != "return":
+            bad.append(pc_term(p.pc))
+            continue
+        nfs, bj = calls(p, "number_of_failures"), calls(p, "build_junit_test_cases")
+        apps = [e for e in p.events if e[0] == "call" and e[1] in ("append", "extend")]
+        stores = p.env.get("$stores") or {}
+        n += 1
+        ok = (len(nfs) == 1 and nfs[0][2][0] == tc and len(bj) == 1 and bj[0][2][0] == tc and not calls(p, "has_failures")
+              and len(apps) == 1 and apps[0][2][0] == acc and same(p.ret, acc))
+        # one of the captured counters grows by exactly number_of_failures()
+        grows = []
+        for (b, k), v in stores.items():
+            old = ex.proj.get((b, k))
+            if v[0] == "int" and old is not None and old[0] == "int":
+                grows.append(f"(= {v[1]} (+ {old[1]} {nfs[0][3][1]}))" if nfs else "false")
+        good = "(or false " + " ".join(grows) + ")" if ok else "false"
+        bad.append(f"(and {pc_term(p.pc)} (not {good}))")
+    c1 = a.discharge("test/junit/failures-count-failed-rules", ex, bad,
+                     f"build_test_suite, one test case ({n} paths): the suite's failure counter grows by exactly number_of_failures() of THIS test case, "
+                     "its JUnit test cases (build_junit_test_cases of this case) are appended to the accumulator, which is passed on")
+    c2 = None
+    try:
+        ex2 = a.exec(IMPL + "number_of_failures", {"len": lambda ex, av: ("int", ex.len_of(av[0]))}, log=("len",), unroll=1, max_paths=50, deepen=False)
+        me = ex2.arg_env["_1"]
+        failed = field(ex2, me, TC.index("failed_rules"), "Vec")
+        bad2 = []
+        for p in ex2.paths:
+            ls = calls(p, "len")
+            ok = p.outcome == "return" and len(ls) == 1 and same(ls[0][2][0], failed) and p.ret == ls[0][3]
+            bad2.append(f"(and {pc_term(p.pc)} (not {'true' if ok else 'false'}))")
+        c2 = a.discharge("test/junit/number_of_failures", ex2, bad2, "number_of_failures() is the length of the test case's failed_rules", witness=False)
+    except Untranslatable as e:
+        a.ob.items.append({"obligation": "test/junit/number_of_failures", "describe": str(e), "verdicts": {}, "status": "inconclusive", "model": None})
+    for c in (c1, c2):
+        if c:
+            c["replay"] = replay_test_renderings(a)
+            c["reproduced"] = c["replay"].get("reproduced", False)
+            a.candidates.append(c)
+
+
+def replay_test_renderings(a):
+    """one test file whose cases have 0, 1, 2 and 3 unmet expectations: plain, json, yaml and junit agree on the number of failed rules
+    (junit: the failures attributes = the number of <failure> elements = the number json lists)"""
+    import os, re as _re, shutil, subprocess, tempfile, json as _json
+    exe = a.cli()
+    if not exe:
+        return {"reproduced": False, "note": "native build failed"}
+    d = tempfile.mkdtemp(prefix="cfnverif_replay_")
+    out = []
+    env = dict(os.environ)
+    env["RUST_BACKTRACE"] = "0"
+    try:
+        open(os.path.join(d, "r.guard"), "w").write("rule r1 { a == 1 }\nrule r2 { b == 1 }\nrule r3 { c == 1 }\n")
+        for unmet in ([0], [1], [2], [3], [2, 1], [0, 3, 2]):
+            text = ""
+            for ci, k in enumerate(unmet):
+                exp = ["PASS", "PASS", "PASS"]
+                for j in range(k):
+                    exp[j] = "FAIL"
+                text += f"- name: c{ci}\n  input:\n    a: 1\n    b: 1\n    c: 1\n  expectations:\n    rules:\n" + "".join(f"      r{j + 1}: {e}\n" for j, e in enumerate(exp))
+            open(os.path.join(d, "t.yaml"), "w").write(text)
+            want = sum(unmet)
+            run = lambda fmt: subprocess.run([exe, "test", "-r", os.path.join(d, "r.guard"), "-t", os.path.join(d, "t.yaml")] + (["-o", fmt] if fmt else []),
+                                             capture_output=True, text=True, env=env, timeout=60)
+            pj = run("json")
+            try:
+                rep = _json.loads(pj.stdout)
+                rep = rep[0] if isinstance(rep, list) else rep
+                nj = sum(len(t.get("failed_rules", [])) for t in rep.get("Ok", rep).get("test_cases", []))
+            except Exception:
+                nj = None
+            px = run("junit")
+            n_elem = len(_re.findall(r"<failure\b", px.stdout))
+            attrs = [int(x) for x in _re.findall(r"<testsuites?\b[^>]*\bfailures=\"(\d+)\"", px.stdout)]
+            if nj != want or n_elem != want or any(x != want for x in attrs) or not attrs:
+                out.append({"unmet_expectations_per_case": unmet, "json_failed_rules": nj, "junit_failure_elements": n_elem, "junit_failures_attributes": attrs,
+                            "expected": want})
+            if (pj.returncode, px.returncode) != ((7, 7) if want else (0, 0)):
+                out.append({"unmet_expectations_per_case": unmet, "exit_json": pj.returncode, "exit_junit": px.returncode})
+        return {"reproduced": bool(out), "mismatches": out[:4]}
+    finally:
+        shutil.rmtree(d, ignore_errors=True)
+
+
+def sarif_one_result_per_message(a):
+    """C07 (`SARIF is well-formed JSON with one result per reported failing check`): the fold that turns the messages of a failing check
+    into SARIF results pushes exactly ONE result per message - whether or not the message carries a location (a missing location is
+    anchored at (0, 0), not dropped) - onto the accumulator given and returns that accumulator"""
+    ex = a.exec(r"(?:reporters::validate::)?sarif::<impl at guard/src/commands/reporters/validate/sarif\.rs:\d+:\d+: \d+:\d+>::from::\{closure#0\}",
+                {"extract_rule_id": lambda ex, av: ex.opq(), "handle_messages": lambda ex, av: ex.opq(), "generate_sarif_locations": lambda ex, av: ex.opq(),
+                 "new": lambda ex, av: ex.opq(), "from": lambda ex, av: ex.opq(), "deref_mut": mirexec.m_identity},
+                log=("push", "generate_sarif_locations"), unroll=1, max_paths=400, first_arg_re=r"_1: &mut \{closure@[^}]*\}, _2: SarifResults", deepen=False)
+    a.fns.append("commands::reporters::validate::sarif::<From<(&ClauseReport, &str)> for SarifResults>::from::{closure#0}")
+    acc, msg = ex.arg_env["_2"], ex.arg_env["_3"]
+    MS = struct_fields(a.src, "rules/eval_context.rs", "Messages")
+    bad, n = [], 0
+    for p in ex.paths:
+        if p.outcome != "return":
+            bad.append(pc_term(p.pc))
+            continue
+        n += 1
+        pushes = [e for e in calls(p, "push") if len(e[2]) == 2]
+        gl = calls(p, "generate_sarif_locations")
+        ok = (len(pushes) == 1 and same(p.ret, acc) and pushes[0][2][1][0] == "struct" and len(gl) == 1
+              and same(pushes[0][2][1][2].get("locations"), gl[0][3]))
+        # with a location: its line / col; without: (0, 0)
+        loc = field(ex, msg, MS.index("location"), "Option")
+        some = payload(ex, loc, "Some")
+        good = "false"
+        if ok and len(gl[0][2]) == 3 and gl[0][2][1][0] == "int" and gl[0][2][2][0] == "int":
+            ln = ex.proj.get((some[1], ".0")) if some is not None and some[0] == "opaque" else None
+            co = ex.proj.get((some[1], ".1")) if some is not None and some[0] == "opaque" else None
+            has = f"(= {disc(ex, loc)} 1)"
+            with_loc = (f"(and (= {gl[0][2][1][1]} {ln[1]}) (= {gl[0][2][2][1]} {co[1]}))" if ln is not None and co is not None and ln[0] == "int" and co[0] == "int"
+                        else "false")
+            good = f"(ite {has} {with_loc} (and (= {gl[0][2][1][1]} 0) (= {gl[0][2][2][1]} 0)))"
+        bad.append(f"(and {pc_term(p.pc)} (not {good}))")
+    c = a.discharge("sarif/one-result-per-message", ex, bad,
+                    f"SARIF, one message of a failing check ({n} returning paths): exactly one result is pushed onto the accumulator given, which is returned; "
+                    "its location is the message's line / column when it has one and (0, 0) otherwise - a check without a location is not dropped")
+    if c:
+        c["replay"] = replay_sarif_results(a)
+        c["reproduced"] = c["replay"].get("reproduced", False)
+        a.candidates.append(c)
+
+
+def replay_sarif_results(a):
+    """--structured -o sarif vs -o json on rules with failing checks of every kind (comparison, exists, named-rule dependency, block on a missing
+    property, empty on an unresolved variable): the SARIF file is JSON, has one result per failing check the JSON report lists, same exit code"""
+    import json as _json
+    exe = a.cli()
+    if not exe:
+        return {"reproduced": False, "note": "native build failed"}
+    import os, shutil, subprocess, tempfile
+    d = tempfile.mkdtemp(prefix="cfnverif_replay_")
+    out = []
+    try:
+        open(os.path.join(d, "d.json"), "w").write('{"a": 1, "L": [1, 2]}\n')
+        files = {"cmp": "rule r { a == 2 }\n", "dep": "rule base { a == 2 }\nrule dep {\n  base\n}\n", "block": "rule blk {\n  Tags { Owner exists }\n}\n",
+                 "var": "let v = Missing.x\nrule ev { %v !empty }\n", "mixed": "rule base { a == 2 }\nrule m {\n  base\n  a == 3\n  Tags { Owner exists }\n  L[*] == 9\n}\n",
+                 "ok": "rule fine { a == 1 }\n"}
+
+        def leaves(o):
+            n = 0
+            if isinstance(o, dict):
+                for k, v in o.items():
+                    if k in ("Clause", "Block") :
+                        n += 1
+                    elif k == "Rule":
+                        n += leaves(v.get("checks", [])) or 1
+                    else:
+                        n += leaves(v)
+            elif isinstance(o, list):
+                n += sum(leaves(x) for x in o)
+            return n
+        for k, t in files.items():
+            open(os.path.join(d, "r.guard"), "w").write(t)
+            run = lambda fmt: subprocess.run([exe, "validate", "-r", os.path.join(d, "r.guard"), "-d", os.path.join(d, "d.json"), "--structured", "-o", fmt,
+                                              "--show-summary", "none"], capture_output=True, text=True, timeout=60)
+            pj, ps = run("json"), run("sarif")
+            try:
+                rep = _json.loads(pj.stdout)
+                sar = _json.loads(ps.stdout)
+                nres = sum(len(r_.get("results", [])) for r_ in sar.get("runs", []))
+                failing_rules = len([x for x in rep[0].get("not_compliant", []) if "Rule" in x])
+            except Exception as e:
+                out.append({"rules_file": t, "problem": f"output is not JSON: {e}"})
+                continue
+            if pj.returncode != ps.returncode:
+                out.append({"rules_file": t, "exit_json": pj.returncode, "exit_sarif": ps.returncode})
+            # at least one result per failing rule (a failing rule is never invisible in SARIF), none for a compliant file
+            if (failing_rules == 0) != (nres == 0) or nres < failing_rules:
+                out.append({"rules_file": t, "failing_rules_in_json": failing_rules, "sarif_results": nres})
+            elif k in ("dep", "block", "var", "mixed"):
+                want = leaves(rep[0].get("not_compliant", []))
+                if nres < want:
+                    out.append({"rules_file": t, "failing_checks_in_json": want, "sarif_results": nres})
+        return {"reproduced": bool(out), "mismatches": out[:4]}
+    finally:
+        shutil.rmtree(d, ignore_errors=True)
+
+
 def scope_delegations(a):
     """the one-line scope methods: a scope that has no state of its own for a question hands it, unchanged, to the scope / recorder that
     has - and touches nothing else (in particular no memo table is written from a record passing through)"""
@@ -3698,15 +4040,15 @@ def replay_multi_definition_reference(a):
 SITES = {
     "C06": [structured_report, structured_parse_closure, junit_exit_code, junit_test_case, junit_report, validate_execute_step, test_generic_report, test_result_exit_code, test_exit_code_domain],
     "C12": [structured_report, junit_test_case, data_input_wiring, data_input_params_wiring, structured_merge_closure, test_get_by_result, test_structured_evaluate, report_combine_union],
-    "C07": [flags_verdict_wiring, reporter_chain, library_entry_wiring, structured_report, junit_test_case, validate_execute_step,
+    "C07": [flags_verdict_wiring, reporter_chain, library_entry_wiring, sarif_one_result_per_message, structured_report, junit_test_case, validate_execute_step,
             data_input_params_wiring, structured_merge_closure],
-    "C16": [test_generic_report, test_get_by_result, test_get_by_rules, test_structured_evaluate, test_result_exit_code],
+    "C16": [test_generic_report, test_get_by_result, test_get_by_rules, test_structured_evaluate, test_result_exit_code, test_junit_counts],
     "C02": [param_ctx_end_record, scope_delegations],
     "C09": [report_partition, report_rule_listing, report_clause_content, report_combine_union, unary_empty_on_expr, param_ctx_end_record],
     "C10": [report_clause_content],
     "C15": [scope_resolution, scope_discipline, scope_delegations, variable_tables, param_rule_call, param_ctx_resolve],
     "C04": [rule_status_semantics, root_scope_rule_table, scope_delegations, scope_resolution],
     "C01": [rule_status_semantics, root_scope_rule_table, scope_discipline],
-    "C17": [merge_map, merge_unwrap, param_files_fold_step, data_input_params_wiring, structured_merge_closure],
+    "C17": [merge_map, merge_unwrap, param_files_fold_step, data_input_params_wiring, structured_merge_closure, supported_extension_predicate],
     "C08": [merge_unwrap, rulegen_unwrap, test_exit_code_domain],
 }
